@@ -106,6 +106,8 @@ func features(prof string, fl pvcase.Flags, r *rand.Rand) feat {
 		f.stateShapes = true
 		f.errP = 0.08
 		f.oddArgs = 0.05
+		// failed throws (every handler tried, none matches) between state changes: the store must come out as it went in
+		f.thr = r.IntN(4) == 0
 	case "panic":
 		blocks()
 		f.panics = true
